@@ -51,7 +51,11 @@ def runtime_contract(qualname, args):
     c = dsl.RunCtx(resolver=resolve)
     if qualname.startswith("lemma:"):
         try:
-            good = bool(dsl.LEMMAS[qualname[6:]]["fn"](c, *args))
+            val = dsl.LEMMAS[qualname[6:]]["fn"](c, *args)
+            if isinstance(val, list):  # a chain of induction lemmas: every item at every index of its range
+                good = all(bool(it[3](j)) for it in val for j in range(it[1], it[2] + 1))
+            else:
+                good = bool(val)
         except Exception as exc:  # noqa: BLE001
             return False, f"raised {type(exc).__name__}: {exc}"
         return good, "lemma evaluated on the real functions"
@@ -64,7 +68,7 @@ def runtime_contract(qualname, args):
         call_args = call_args[1:]  # classmethod: the contract's `cls` placeholder is not passed
     try:
         res = fn(*call_args)
-        if K.returns in ("gen", "Seq") and not isinstance(res, (list, tuple)):
+        if K.returns in ("gen", "Seq", "TupleList") and not isinstance(res, (list, tuple)):
             res = list(res)
         if K.returns == "CellSetGen":
             res = set(res)
@@ -80,6 +84,8 @@ def runtime_contract(qualname, args):
     if K.ensures is None:
         return True, "no postcondition"
     good = bool(K.ensures(c, *args, res))
+    if good and K.derived is not None:
+        good = bool(K.derived(c, *args, res))
     oracle = getattr(K.cls, "runtime_oracle", None)
     if good and oracle is not None:
         # definition-level oracle for the parts of the postcondition that mention ghost locals
